@@ -2,7 +2,7 @@
    losses/functional.py (derivatives as symbols), D = 2 and 3; denormalize_flow factors. *)
 From Coq Require Import ZArith QArith List Field Ring Lia Bool.
 From DV Require Import Base.Field Base.FieldFacts Base.LinAlg Base.Tactics Base.QcInst Model.Losses Model.RegStencil Model.Regularisers
-  Gen.Regs Proofs.C16Lists.
+  Gen.Regs Gen.FlowDeriv Proofs.C16Lists.
 Import ListNotations.
 Local Open Scope fld_scope.
 
@@ -14,7 +14,7 @@ Add Field KF : Kf.
 Let two_nz := two_nz K Kf Kc.
 Variables (m : dmode) (sp : list K) (i : idx) (fabs : K -> K) (lam mu : K).
 
-Ltac nz := repeat split; repeat (first [exact two_nz | exact (one_nz K Kc) | apply (mul_nz K Kf)]).
+Ltac nz := repeat split; repeat (first [assumption | exact two_nz | exact (one_nz K Kc) | apply (mul_nz K Kf)]).
 Ltac open_pt := unfold bending_pt, curvature_pt, diffusion_pt, tv_pt, div_pt, elasticity_pt, sumf, dims;
   cbn [length seq map vsum Nat.ltb Nat.leb Nat.eqb comp nth]; unfold sq;
   unfold gen_bending2, gen_bending3, gen_curvature2, gen_curvature3, gen_diffusion2, gen_diffusion3, gen_tv2, gen_tv3,
@@ -87,6 +87,28 @@ Proof.
     + cbn [fst snd]. subst x. ring.
     + apply IH.
 Qed.
+(* the hand-written stencil model IS the stencils traced from core/image.py by the FlowDeriv unit (which also checks,
+   fail-closed, that every position uses the clamped = replicate-padded neighbours): the cross smoothing of 'sobel' /
+   'prewitt' and the three cases of the forward / central / backward scheme *)
+Lemma stencil_tie sh (h : K) d (f : idx -> K) (q : idx) :
+  smooth sh (1 + 1) d f q = gen_avg_sobel (f (cshift sh d q (-1))) (f q) (f (cshift sh d q 1)) /\
+  smooth sh 1 d f q = gen_avg_prewitt (f (cshift sh d q (-1))) (f q) (f (cshift sh d q 1)) /\
+  (h <> 0 ->
+   (get d q = 0%Z -> fd sh h d f q = gen_fcb_first (f q) (f (shift d q 1)) h) /\
+   (get d q <> 0%Z -> get d q = (nth d sh 0 - 1)%Z -> fd sh h d f q = gen_fcb_last (f (shift d q (-1))) (f q) h) /\
+   (get d q <> 0%Z -> get d q <> (nth d sh 0 - 1)%Z -> fd sh h d f q = gen_fcb_mid (f (shift d q (-1))) (f (shift d q 1)) h)).
+Proof.
+  assert (H3 : (1 + (1 + 1) : K) <> 0) by (replace (1 + (1 + 1) : K) with (@of_pos K 3) by (cbn [of_pos]; ring); apply Kc).
+  assert (H4 : (1 + 1 + (1 + 1) : K) <> 0) by (replace (1 + 1 + (1 + 1) : K) with (@of_pos K 4) by (cbn [of_pos]; ring); apply Kc).
+  split; [|split].
+  - unfold smooth, gen_avg_sobel, of_Q. cbn [of_Z of_pos]. field. nz.
+  - unfold smooth, gen_avg_prewitt, of_Q. cbn [of_Z of_pos]. field. nz.
+  - intro Hh. unfold fd, gen_fcb_first, gen_fcb_last, gen_fcb_mid. cbv zeta. cbn [of_Z of_pos]. repeat split.
+    + intro E. rewrite E. cbn [Z.eqb]. reflexivity.
+    + intros N0 E. apply Z.eqb_neq in N0. rewrite N0. rewrite E, Z.eqb_refl. reflexivity.
+    + intros N0 N1. apply Z.eqb_neq in N0. apply Z.eqb_neq in N1. rewrite N0, N1. field. nz.
+Qed.
+
 (* every derivative mode of spatial_derivatives divides d/dx_a by the spacing of axis a and the second
    derivatives by the product of the two spacings (all linear operators on the data traced as the identity) *)
 Lemma spacing_divisors_ok (h0 h1 h2 x : K) : h0 <> 0 -> h1 <> 0 -> h2 <> 0 ->
